@@ -68,8 +68,8 @@ func (u *User) Read(p []byte) (int, error) {
 		return 0, io.EOF // All bytes have been read
 	}
 
-	n := copy(p, b)
-	u.readOffset = n
+	n := copy(p, b[u.readOffset:])
+	u.readOffset += n
 
 	return n, nil
 }
